@@ -90,7 +90,7 @@ class Tagger:
                 self.expr(st.iter, env)
             for s2 in st.body + st.orelse:
                 self.stmt(s2, env)
-        elif isinstance(st, (ast.Raise, ast.Pass, ast.Assert, ast.Break, ast.Continue)):
+        elif isinstance(st, (ast.Raise, ast.Pass, ast.Assert, ast.Break, ast.Continue, ast.Import, ast.ImportFrom)):
             return
         elif isinstance(st, ast.Assign):
             self.expr(st.value, env)
